@@ -52,28 +52,28 @@ pub fn main(args: &[String]) {
     // (case line, real outcome, expectation: Some(true)=must accept, Some(false)=must reject, tag)
     let mut lines: Vec<String> = vec![];
     let mut srcs: Vec<String> = vec![];
-    let mut meta: Vec<(String, bool, String, bool)> = vec![]; // (target, unsafe_refs, tag, expect_accept)
+    let mut meta: Vec<(String, bool, String, bool, String)> = vec![]; // (target, unsafe_refs, tag, expect_accept, expected context)
     for i in 0..n_valid {
         let target = BACKENDS[i % BACKENDS.len()];
         let unsafe_refs = i % 5 == 0;
         let prof = profile_of(target, unsafe_refs);
         let m: Module = Gen::valid_module(&mut rng, prof);
-        let push = |m: &Module, tag: &str, expect: bool, lines: &mut Vec<String>, srcs: &mut Vec<String>, meta: &mut Vec<(String, bool, String, bool)>| {
+        let push = |m: &Module, tag: &str, expect: bool, ctx: &str, lines: &mut Vec<String>, srcs: &mut Vec<String>, meta: &mut Vec<(String, bool, String, bool, String)>| {
             lines.push(format!("(c05 {} {})", prof.sexp(), m.sexp_decls()));
             srcs.push(m.rust());
-            meta.push((target.to_string(), unsafe_refs, tag.to_string(), expect));
+            meta.push((target.to_string(), unsafe_refs, tag.to_string(), expect, ctx.to_string()));
         };
-        push(&m, "valid", true, &mut lines, &mut srcs, &mut meta);
+        push(&m, "valid", true, "", &mut lines, &mut srcs, &mut meta);
         if i % 2 == 0 {
-            for (tag, mm) in tygen::mutants(&m, &mut rng) {
-                push(&mm, &tag, false, &mut lines, &mut srcs, &mut meta);
+            for (tag, mm, ctx) in tygen::mutants_ctx(&m, &mut rng, prof) {
+                push(&mm, &tag, false, &ctx, &mut lines, &mut srcs, &mut meta);
             }
         }
     }
     match crate::model::run_model("C05", &lines) {
         Ok(model) => {
             for k in 0..lines.len() {
-                let (target, unsafe_refs, tag, expect) = &meta[k];
+                let (target, unsafe_refs, tag, expect, want_ctx) = &meta[k];
                 rep.case(&lines[k]);
                 rep.count(&format!("kind={}", if tag == "valid" { "valid" } else { "mutant" }));
                 if tag != "valid" {
@@ -95,6 +95,13 @@ pub fn main(args: &[String]) {
                         if *expect { "a module within the documented rules is rejected" } else { "a module breaking a documented rule is accepted" },
                         json!({"backend": target, "rule": tag, "tool": real, "source": srcs[k]}),
                     );
+                }
+                // the error of a single-fault mutant must carry exactly the faulty type (and method) as context
+                if !*expect && real.starts_with("reject ") && !want_ctx.is_empty() {
+                    let got = real.trim_start_matches("reject ");
+                    if got != want_ctx {
+                        rep.oracle_fail(&lines[k], "a lowering error is reported with the wrong type/method context", json!({"backend": target, "rule": tag, "expected_context": want_ctx, "reported_contexts": got, "source": srcs[k]}));
+                    }
                 }
             }
         }
